@@ -292,6 +292,103 @@ def a6_loop_alias(run: Run, prog: Program, rule="A6", files=C10_FILES):
     run.count(rule, n)
 
 
+def a7_local_memo(run: Run, prog: Program, rule="A7", files=C10_FILES):
+    """A local dict used as a memo inside nested loops (`if key not in memo:
+    memo[key] = value`) must be keyed on every loop variable its value depends
+    on: the dependence is followed through the assignments made inside the
+    loops (def-use closure).  A key that leaves one out returns the value of an
+    earlier iteration for a different input."""
+    n = 0
+    for f in prog.functions():
+        if not any(p in f.module.relpath for p in files):
+            continue
+        dicts = {}
+        for st in ast.walk(f.node):
+            if isinstance(st, ast.Assign) and len(st.targets) == 1 and \
+                    isinstance(st.targets[0], ast.Name) and (
+                        (isinstance(st.value, ast.Dict) and not st.value.keys) or
+                        (isinstance(st.value, ast.Call) and
+                         ast.unparse(st.value.func) in ("dict", "{}") and
+                         not st.value.args and not st.value.keywords)):
+                dicts[st.targets[0].id] = st
+        if not dicts:
+            continue
+        # loops enclosing every node
+        parents = {}
+        for p_ in ast.walk(f.node):
+            for ch in ast.iter_child_nodes(p_):
+                parents[id(ch)] = p_
+
+        def enclosing_loops(node):
+            out = []
+            x = parents.get(id(node))
+            while x is not None:
+                if isinstance(x, (ast.For, ast.While)):
+                    out.append(x)
+                x = parents.get(id(x))
+            return out
+        for test in ast.walk(f.node):
+            if not (isinstance(test, ast.If) and isinstance(test.test, ast.Compare) and
+                    len(test.test.ops) == 1 and isinstance(test.test.ops[0], ast.NotIn)
+                    and isinstance(test.test.comparators[0], ast.Name)
+                    and test.test.comparators[0].id in dicts):
+                continue
+            D = test.test.comparators[0].id
+            key = test.test.left
+            stores = [s_ for b_ in test.body for s_ in ast.walk(b_)
+                      if isinstance(s_, ast.Assign) and
+                      isinstance(s_.targets[0], ast.Subscript) and
+                      isinstance(s_.targets[0].value, ast.Name) and
+                      s_.targets[0].value.id == D and
+                      ast.unparse(s_.targets[0].slice) == ast.unparse(key)]
+            if not stores:
+                continue
+            loops = [l for l in enclosing_loops(test)
+                     if l.lineno > dicts[D].lineno]       # loops inside the memo's life
+            if not loops:
+                continue
+            loopvars = {x.id for l in loops if isinstance(l, ast.For)
+                        for x in ast.walk(l.target) if isinstance(x, ast.Name)}
+            # def-use closure of the stored value over assignments inside the loops
+            inside = {id(x) for l in loops for x in ast.walk(l)}
+            deps = {}
+            for st in ast.walk(loops[-1]):
+                if isinstance(st, (ast.Assign, ast.AugAssign)) and id(st) in inside:
+                    tg = st.targets if isinstance(st, ast.Assign) else [st.target]
+                    names_v = {x.id for x in ast.walk(st.value) if isinstance(x, ast.Name)}
+                    for t in tg:
+                        for x in ast.walk(t):
+                            if isinstance(x, ast.Name) and isinstance(x.ctx, ast.Store):
+                                deps.setdefault(x.id, set()).update(names_v)
+                                if isinstance(st, ast.AugAssign):
+                                    deps[x.id].add(x.id)
+            # the statements of the if-body itself define the value
+            work = [x.id for s_ in stores for x in ast.walk(s_.value)
+                    if isinstance(x, ast.Name)]
+            closure = set()
+            while work:
+                v = work.pop()
+                if v in closure:
+                    continue
+                closure.add(v)
+                work.extend(deps.get(v, ()))
+            keynames = {x.id for x in ast.walk(key) if isinstance(x, ast.Name)}
+            missing = sorted((closure & loopvars) - keynames - {D})
+            n += 1
+            run.oblige(rule, f"{f.qualname}:{D}[{ast.unparse(key)}]", not missing, sample={
+                "where": f"{f.module.relpath}:{test.lineno}",
+                "value_depends_on_loop_variables": sorted(closure & loopvars)})
+            if missing:
+                run.add(rule, f"{f.qualname}/memo-key/{D}",
+                        f"{f.module.relpath}:{test.lineno}",
+                        f"{f.qualname}: the local memo `{D}` is keyed on "
+                        f"`{ast.unparse(key)}` but the stored value depends on the loop "
+                        f"variable(s) {missing} (through assignments inside the loops): "
+                        f"a later iteration with another {missing[0]} reuses the value "
+                        f"computed for an earlier one")
+    run.count(rule, n)
+
+
 def a5_layout(run: Run, prog: Program, cy: CyProgram, sites):
     """The C estimators address their 2-D inputs row-major with the row length
     the caller's shape gives them.  Re-uses C20's affine pointer analysis (every
@@ -325,6 +422,8 @@ def check(run: Run, prog: Program, cy: CyProgram, sites):
     run.rule("A3", "literal option values that flow into a validated parameter are "
              "accepted by the callee")
     run.rule("A4", "running absolute-maximum idiom is internally consistent")
+    run.rule("A7", "a local memo dict inside loops is keyed on every loop variable "
+             "its value depends on")
     run.rule("A6", "a name bound inside a loop to a list/array built before the loop "
              "is not changed in place (work objects are fresh per iteration)")
     run.rule("A5", "C estimators address 2-D inputs row-major with the row length of "
@@ -356,3 +455,4 @@ def check(run: Run, prog: Program, cy: CyProgram, sites):
     a4_absmax(run, cy, prog)
     a5_layout(run, prog, cy, sites)
     a6_loop_alias(run, prog)
+    a7_local_memo(run, prog)
